@@ -37,3 +37,27 @@ pub trait ToFeelString {
   /// Converts `FEEL` artifacts into `FEEL` string.
   fn to_feel_string(&self) -> String;
 }
+
+/// Renders a text as a `JSON` string literal: surrounds it with quotation marks and escapes
+/// quotation marks, backslashes and control characters, so that it decodes back to the same text.
+pub(crate) fn to_json_string(text: &str) -> String {
+  let mut out = String::with_capacity(text.len() + 2);
+  out.push('"');
+  for ch in text.chars() {
+    match ch {
+      '"' => out.push_str("\\\""),
+      '\\' => out.push_str("\\\\"),
+      '\n' => out.push_str("\\n"),
+      '\r' => out.push_str("\\r"),
+      '\t' => out.push_str("\\t"),
+      ch if (ch as u32) < 0x20 => {
+        out.push_str("\\u00");
+        out.push(char::from_digit((ch as u32) >> 4, 16).unwrap_or('0'));
+        out.push(char::from_digit((ch as u32) & 0xF, 16).unwrap_or('0'));
+      }
+      ch => out.push(ch),
+    }
+  }
+  out.push('"');
+  out
+}
